@@ -18,7 +18,7 @@ from oracles import ref as _ref  # noqa: F401  (sets mpmath to 50 digits)
 
 LEVEL = "exploration"
 RULE = ("transform in {Identity, Periodic, Logit, Probit, Affine, Composite(periodic subset x bounded_to_unbounded x logit|probit "
-        "x affine), FlowTransform, FlowPreconditioningTransform(zuko)} x bounds in {(0,1),(-1e-3,1e-3),(-1e6,1e6),(1e3,1e3+1),"
+        "x affine), FlowTransform, FlowPreconditioningTransform(zuko)} x bounds in {(0,1),(-1e-3,1e-3),(-1e6,1e6),(1e3,1e3+1), widths whose product over-/underflows the dtype (1e200^2, 1e-170^2, 1e15^3, 1e-16^3, 1e3^14),"
         "(-5,20), mixed} x d in {1,2,3} x batch in {1,3,7} x interior positions {2eps,1e-3,0.1,0.5,0.9,1-1e-3,1-2eps} (Latin "
         "arrangement over dimensions) x {numpy,torch,jax} x {float32,float64}; wrapping additionally on {l,u,l-d,u+d,l+-kP,+-1e12}. "
         "One evaluation = one (transform, input batch) with all oracles; non-trivial = non-identity map with a non-constant "
@@ -444,6 +444,15 @@ def specs(tier):
     for sp in out:
         if sp["batch"] >= 3 and (sp["kind"] == "affine" or sp.get("affine")):
             refits.append(dict(sp, refit=True))
+    # widths whose product leaves the float range although every width and the log-volume are representable
+    extreme = []
+    for only, bs in (("float64", [(0.0, 1e200), (-1e200, 0.0)]), ("float64", [(0.0, 1e-170), (1.0, 1.0 + 1e-10), (0.0, 1e-170)]),
+                     ("float32", [(0.0, 1e15)] * 3), ("float32", [(0.0, 1e-16)] * 3), ("float32", [(0.0, 1e3)] * 14)):
+        for kind in ("logit", "probit"):
+            extreme.append({"kind": kind, "d": len(bs), "bounds": bs, "batch": 3, "only_dtype": only})
+        extreme.append({"kind": "composite", "d": len(bs), "bounds": bs, "batch": 3, "periodic": [], "b2u": True, "bt": "logit", "affine": False,
+                        "shift": 0, "only_dtype": only})
+    out = out + extreme
     named = [dict(sp, names="unsorted") for sp in out
              if sp["kind"] in ("composite", "flowtransform") and sp["d"] >= 2 and sp["batch"] == 7 and len({tuple(b) for b in sp["bounds"]}) > 1]
     return out + refits + named
@@ -460,6 +469,8 @@ def run(tier, seed, workers):
         for ns in ("numpy", "torch", "jax"):
             for dt in ("float64", "float32"):
                 if tier == "quick" and ns != "numpy" and sp["batch"] == 1:
+                    continue
+                if sp.get("only_dtype") not in (None, dt):
                     continue
                 if tier == "quick" and ns == "jax" and sp["kind"] == "composite" and sp["batch"] == 7:
                     continue
